@@ -156,7 +156,7 @@ where
     }
 }
 
-fn max_position(min_shift: u8, depth: u8) -> io::Result<Position> {
+pub(super) fn max_position(min_shift: u8, depth: u8) -> io::Result<Position> {
     assert!(min_shift > 0);
     let n = (1 << (usize::from(min_shift) + 3 * usize::from(depth))) - 1;
     Position::try_from(n).map_err(|e| io::Error::new(io::ErrorKind::InvalidInput, e))
